@@ -103,6 +103,12 @@ SUM_HOOKS = []
 
 
 def _isinstance(eng, v, t):
+    # decidable cases first: tuple / list tests on values whose representation is known
+    tn = getattr(t, "name", None)
+    if tn == "tuple":
+        return isinstance(v, tuple)
+    if tn == "list":
+        return isinstance(v, VList)
     eng.used_assumptions.add("X-ISINSTANCE: isinstance() type assertions hold (inputs have their declared types)")
     return True
 
@@ -228,8 +234,19 @@ MATH = Ext("math", {"sqrt": x_sqrt, "pi": PI, "isclose": Ext("isclose", _isclose
                     "fsum": Ext("fsum", _fsum)})
 
 
+def _shallow_copy(eng, o):
+    """copy.copy: a new object with the same field values (shallow: array / object fields stay shared)"""
+    from .engine import Obj
+    if isinstance(o, Obj):
+        return Obj(o.cls, dict(o.fields), label=o.label + "'")
+    if isinstance(o, Vec):
+        return Vec(list(o.items))
+    return o
+
+
 def base_externals():
     return {
+        "copy": Ext("copy", {"copy": Ext("copy.copy", _shallow_copy)}),
         "np": NP, "numpy": NP, "math": MATH,
         "scipy.special.expi": x_expi, "scipy.special.erf": x_erf, "scipy.special.erfc": x_erfc,
         "scipy.special.exp1": x_exp1,
